@@ -102,7 +102,7 @@ class Mgr:
     self.facade = facade
     if facade == 'quantizer':
       self.q = quantizer.Quantizer(model_bytes)
-      self.rm = self.q._recipe_manager  # for probing only
+      self.rm = harness.recipe_manager_of(self.q)  # for probing only
     else:
       self.q = None
       self.rm = recipe_manager.RecipeManager()
